@@ -207,6 +207,17 @@ func WAlphabet(names []string) []ops.Op {
 			}
 		}
 	}
+	// the same calls with non-canonical spellings of an argument (.., //, /./): the named subtree is what the cleaned
+	// path designates
+	for _, w := range names {
+		a = append(a,
+			ops.Op{K: "rename", P: "/" + w, Q: "/zz/../" + w + "/d/sub"},
+			ops.Op{K: "rename", P: "/" + w, Q: "//" + w + "/sub"},
+			ops.Op{K: "rename", P: "/./" + w, Q: "/" + w + "/d/sub"},
+			ops.Op{K: "rename", P: "/" + w + "/./d", Q: "/" + w + "/../" + w + "/e2"},
+			ops.Op{K: "removeall", P: "/zz/../" + w + "/d"},
+			ops.Op{K: "removeall", P: "//" + w})
+	}
 	return a
 }
 
